@@ -22,6 +22,7 @@ class Wire(object):
         self.ccut = ccut               # client->server cut: only the first ccut bytes ever arrive
         self.dead = False
         self.requests = 0
+        self.frames = []               # (start, end) of each reply frame in self.out
 
     def feed(self, data):
         data = list(data)
@@ -45,17 +46,20 @@ class Wire(object):
                 return
             self.requests += 1
             if logix.process(self.addr, data=d, **self.kw):
+                start = len(self.out)
                 self.out.extend(parser.enip_encode(d.response.enip))
+                self.frames.append((start, len(self.out)))
             else:
                 self.dead = True
                 return
 
 
 class FakeSock(object):
-    def __init__(self, wire, cut=None):
+    def __init__(self, wire, cut=None, drop=None):
         self.wire = wire
         self.cut = cut                  # server->client cut: after `cut` bytes, EOF
-        self.delivered = 0
+        self.drop = drop                # index of a reply frame that is LOST ENTIRELY (later frames still arrive)
+        self.delivered = 0              # position in wire.out
         self.closed = False
 
     def fileno(self):
@@ -79,6 +83,7 @@ class FakeSock(object):
         return n if self.cut is None else min(n, self.cut)
 
     def available(self):
+        self._skip_dropped()
         return self._limit() - self.delivered
 
     def eof(self):
@@ -87,11 +92,23 @@ class FakeSock(object):
     def readable(self):
         return self.available() > 0 or self.eof()
 
+    def _skip_dropped(self):
+        if self.drop is not None and self.drop < len(self.wire.frames):
+            start, end = self.wire.frames[self.drop]
+            if self.delivered == start:
+                self.delivered = end
+
     def recv(self, maxlen=4096):
+        self._skip_dropped()
         n = self.available()
         if n > 0:
-            chunk = bytes(bytearray(self.wire.out[self.delivered:self.delivered + n]))
-            self.delivered += n
+            stop = self.delivered + n
+            if self.drop is not None and self.drop < len(self.wire.frames):
+                start, end = self.wire.frames[self.drop]
+                if self.delivered < start < stop:
+                    stop = start            # deliver up to the lost frame; the next recv skips it
+            chunk = bytes(bytearray(self.wire.out[self.delivered:stop]))
+            self.delivered = stop
             return chunk
         return b''                      # EOF (only called when select reported readable)
 
@@ -131,10 +148,10 @@ def install_stubs():
         device.dialect = logix.Logix
 
 
-def connect(cut=None, ccut=None, **kw):
+def connect(cut=None, ccut=None, drop=None, **kw):
     """-> (connector, wire, sock); raises whatever client.connector raises when registration fails"""
     wire = Wire(ccut=ccut, **kw)
-    sock = FakeSock(wire, cut=cut)
+    sock = FakeSock(wire, cut=cut, drop=drop)
     CURRENT['sock'] = sock
     c = client.connector(host='fake', port=44818, timeout=1.0)
     return c, wire, sock
@@ -146,7 +163,7 @@ def prepare(specs, **kw):
     made = []
     for sp in specs:
         wire = Wire(ccut=sp.get('ccut'), **kw)
-        sock = FakeSock(wire, cut=sp.get('cut'))
+        sock = FakeSock(wire, cut=sp.get('cut'), drop=sp.get('drop'))
         QUEUE.append(sock)
         made.append((wire, sock))
     return made
